@@ -889,8 +889,8 @@ def small_space(ck, rng, full):
         return m
     out = []
     if full:
-        # thorough: 6000 random pairs of graphs over atoms {1,2,3,4} with orders absent/1/2/3/4/8
-        for i in range(6000):
+        # thorough: 1500 random pairs of graphs over atoms {1,2,3,4} with orders absent/1/2/3/4/8
+        for i in range(1500):
             gs4 = []
             for _ in range(2):
                 atoms = tuple(a for a in (1, 2, 3, 4) if rng.random() < 0.8)
@@ -913,7 +913,7 @@ def small_space(ck, rng, full):
     for variant in range(5):
         for gi, g in enumerate(graphs):
             for hi, h in enumerate(graphs):
-                if variant and not full and rng.random() > 0.12:
+                if variant and rng.random() > (0.5 if full else 0.12):
                     continue
                 shuffle = rng.random() < 0.5
                 out.append((('small', variant, gi, hi, shuffle), build(g, 0, shuffle), build(h, variant, shuffle)))
@@ -948,7 +948,7 @@ def corr_compose(ck, rxns):
         ck.case(('mc',) + tok, nontrivial=h is not None and bool(h.center_atoms))
         ck.count('compose:' + tok[0] + ':' + ('ValueError' if h is None else 'centre' if h.center_atoms else 'no centre'))
     # (3) reaction level: unions (with renumbering on collisions) + compose
-    for x in (rxns[:200] if ck.tier == 'quick' else rxns[:1000]):
+    for x in (rxns[:200] if ck.tier == 'quick' else rxns[:600]):
         rxn = x.rxn
         try:
             rr = list(rxn.reagents) + list(rxn.reactants)
@@ -1212,7 +1212,7 @@ def corr_reader(ck, rxns):
     written = [s for s, _ in strings]
     strings += [(s, 'malformed') for s in MALFORMED]
     # synthetic grammar-level strings with many '.'/'>'/f:/^ combinations
-    for _ in range(300 if ck.tier == 'quick' else 3000):
+    for _ in range(300 if ck.tier == 'quick' else 2000):
         roles = ['.'.join(rng.choice(['C', 'N', 'O', '[Na+]', '']) for _ in range(rng.randint(0, 4))) for _ in range(3)]
         smi = '>'.join(roles)
         n = sum(1 for r in roles for x in r.split('.') if x)
@@ -1226,7 +1226,7 @@ def corr_reader(ck, rxns):
             cx.append('f:' + ','.join(gs))
         rng.shuffle(cx)
         strings.append((smi + (' |' + ','.join(cx) + '|' if cx else ''), 'synthetic'))
-    for _ in range(400 if ck.tier == 'quick' else 4000):
+    for _ in range(400 if ck.tier == 'quick' else 2500):
         base = rng.choice(written) if written and rng.random() < 0.5 else rng.choice(MALFORMED)
         if len(base) > 300:
             continue
@@ -1692,7 +1692,7 @@ def run(ck):
         return r
     # generated files in the closure of props/C15.v: the C15 tables (tools/gen_cgr.py) and those of the writer model of C02
     proved = timed('proof steps', common.standard_proof_steps, ck, ['cgr', 'smiles_tables', 'elements', 'stereo'])
-    n = 300 if ck.tier == 'quick' else 1500
+    n = 300 if ck.tier == 'quick' else 1000
     rxns = timed('generate', gen_reactions, ck, n)
     ck.extra['reactions'] = len(rxns)
     tied = timed('corr compose', corr_compose, ck, rxns)
